@@ -4,7 +4,10 @@ Spec: specs/IRSem.tla (the IR as a transition system) + specs/IRSemNil.tla (inva
 normal Return, NeverNil => the result is non-nil, AlwaysNil => nil, for the interface value and for the value
 it holds; SA4023 corollary: a comparison a diagnostic calls impossible never takes the other value).
 
-Per program (seeded generator `h-irsem gennil` over the property's vocabulary + hand-written corpus, root
+Per program (seeded random generator `h-irsem gennil` over the property's vocabulary + the DIRECTED family
+`gennil -directed` (one function per transfer rule of the analysis x merging shape: the value produced by the rule is
+merged, via a phi or via two return statements, with a definitely non-nil value in result 0 and with nil in result 1,
+which is where a rule that leaves its value unset or is too optimistic becomes visible) + hand-written corpus, root
 package + ./lib so that facts cross a package boundary):
   * claims: the REAL analysis results — nilness.Result read by a probe analyzer that runs, together with
     SA4023, through the real staticcheck runner (lintcmd.Command in h-irsem claims);
@@ -37,6 +40,7 @@ class NilProgram:
         self.sa4023 = []      # (line, col, message) in prog.go
         self.error = None
         self.files = {}
+        self.meta = {}        # directed programs: function name -> {Kind, Src, Shape, Res}
 
 
 def read_files(d):
@@ -52,6 +56,8 @@ def read_files(d):
 def prepare(ctx, helper, np, maxvec):
     d = np.dir
     np.files = {k: v for k, v in read_files(d).items() if k != "main_native.go"}
+    if os.path.exists(os.path.join(d, "dirmeta.json")):
+        np.meta = {m["Name"]: m for m in json.load(open(os.path.join(d, "dirmeta.json")))}
     env = vlib.go_env({"STATICCHECK_CACHE": ctx.tmp("sc-cache-" + np.name)})
     rc, so, se = vlib.sh([helper, "claims", "-dir", d], env=env, timeout=900)
     if rc != 0:
@@ -168,6 +174,12 @@ def run_batch(ctx, nps, workers, strip_chk=False, only=None):
     return r, out
 
 
+def label(np, fn):
+    """directed programs: which transfer rule / source expression / shape the function exercises"""
+    m = np.meta.get(fn)
+    return " {%s: `%s` [%s]}" % (m["Kind"], m["Src"], m["Shape"]) if m else ""
+
+
 def claim_str(cl):
     return "[" + " ".join("{%s %s}" % (NILNAME.get(c["i"], "?"), NILNAME.get(c["o"], "?")) for c in cl) + "]"
 
@@ -177,9 +189,11 @@ def run(ctx):
     helper = vlib.go_build_harness(ctx, "cmd/h-irsem")
     workers = 4
     if ctx.quick:
-        ngen, nfns, maxvec = 4, 12, 32
+        # 2 random programs + the directed family, every source once in a seeded merging shape
+        ngen, nfns, maxvec, ndir, dirfull = 2, 12, 32, 2, False
     else:
-        ngen, nfns, maxvec = 16, 14, 64
+        # 12 random programs + the directed family, every source in every shape
+        ngen, nfns, maxvec, ndir, dirfull = 12, 14, 64, 6, True
     if os.environ.get("VERIF_CAP"):      # smoke-run of a tier with fewer generated programs
         ngen = min(ngen, int(os.environ["VERIF_CAP"]))
 
@@ -193,7 +207,8 @@ def run(ctx):
         nps.append(NilProgram(doc["case"]["program"], d))
     else:
         gd = ctx.tmp("gennil")
-        rc, so, se = vlib.sh([helper, "gennil", "-seed", str(ctx.seed), "-n", str(ngen), "-fns", str(nfns), "-dir", gd], timeout=120)
+        rc, so, se = vlib.sh([helper, "gennil", "-seed", str(ctx.seed), "-n", str(ngen), "-fns", str(nfns), "-dir", gd,
+                              "-directed", str(ndir)] + (["-full"] if dirfull else []), timeout=120)
         if rc != 0:
             raise Inconclusive("generator failed: " + se[-1000:])
         if os.path.isdir(NILCORPUS):
@@ -232,6 +247,7 @@ def run(ctx):
 
     cnt = {"ok": 0, "unsound": 0, "natdiff": 0, "sa4023": 0, "unsup": 0, "other": 0, "definite_claims_checked": 0, "panic_runs": 0}
     natdiffs, recheck = [], set()
+    unsup_why = {}
     reported = set()
     for np, run, cases in results:
         if not cases:
@@ -243,14 +259,17 @@ def run(ctx):
         cnt[v if v in cnt else "other"] += 1
         if c["s"] == "panic":
             cnt["panic_runs"] += 1
+        if v == "unsup":
+            why = "%s (%s)" % (c["why"], "directed " + np.meta[run["fn"]]["Kind"] if run["fn"] in np.meta else np.name.split("_")[0])
+            unsup_why[why] = unsup_why.get(why, 0) + 1
         if v in ("ok", "unsound"):
             cnt["definite_claims_checked"] += sum(1 for cl in run["claims"] if cl["o"] in (1, 2) or cl["i"] in (1, 2)) if c["s"] == "done" else 0
         if v == "unsound":
             confirmed = run["nat"]["panic"] == 0 and run["nat"]["pat"] == c["pat"]
-            what = "%s %s: nilness claims %s but the IR execution returns nil-ness %s (o=1: nil; i=1: nil inside a non-nil interface)" % (
-                np.name, run["desc"], claim_str(run["claims"]), c["pat"])
+            what = "%s %s%s: nilness claims %s but the IR execution returns nil-ness %s (o=1: nil; i=1: nil inside a non-nil interface)" % (
+                np.name, run["desc"], label(np, run["fn"]), claim_str(run["claims"]), c["pat"])
             if confirmed:
-                if (np.name, run["fn"]) not in reported and len(ctx.violations) < 10:
+                if (np.name, run["fn"]) not in reported and len(ctx.violations) < 24:
                     reported.add((np.name, run["fn"]))
                     ctx.violation(vlib.canon_key({"files": np.files, "fn": run["fn"], "kind": "unsound"}), what + "; the native run confirms it",
                                   {"kind": "c15", "program": np.name, "files": np.files, "fn": run["fn"], "vector": run["desc"],
@@ -269,8 +288,8 @@ def run(ctx):
                 if not sound(cl, pat) and (np.name, run["fn"]) not in reported:
                     reported.add((np.name, run["fn"]))
                     ctx.violation(vlib.canon_key({"files": np.files, "fn": run["fn"], "kind": "unsound"}),
-                                  "%s %s: nilness claims %s but the native run returns nil-ness %s (IR execution: %s)" % (
-                                      np.name, run["desc"], claim_str(run["claims"]), run["nat"]["pat"], v),
+                                  "%s %s%s: nilness claims %s but the native run returns nil-ness %s (IR execution: %s)" % (
+                                      np.name, run["desc"], label(np, run["fn"]), claim_str(run["claims"]), run["nat"]["pat"], v),
                                   {"kind": "c15", "program": np.name, "files": np.files, "fn": run["fn"], "vector": run["desc"],
                                    "claims": run["claims"], "native": run["nat"]})
 
@@ -321,7 +340,20 @@ def run(ctx):
     for np, run, cases in results[:: max(1, total // 4)][:4]:
         samples.append({"program": np.name, "call": run["desc"], "claims": claim_str(run["claims"]),
                         "ir": {"status": cases[0]["s"], "pattern": cases[0]["pat"]}, "native": run["nat"], "verdict": cases[0]["v"]})
+    # directed family: per transfer rule, the functions generated and the executions that returned normally
+    kinds = {}
+    for np, run, cases in results:
+        m = np.meta.get(run["fn"])
+        if m:
+            k = kinds.setdefault(m["Kind"], {"functions": set(), "runs": 0, "runs_returning": 0})
+            k["functions"].add((np.name, run["fn"]))
+            k["runs"] += 1
+            k["runs_returning"] += 1 if cases[0]["s"] == "done" else 0
+    for k in kinds.values():
+        k["functions"] = len(k["functions"])
     ctx.coverage = {
+        "directed_family": kinds,
+        "directed_functions": sum(k["functions"] for k in kinds.values()),
         "states": stats["states"],
         "transitions": stats["transitions"],
         "traces_validated_against_impl": total,
@@ -332,6 +364,7 @@ def run(ctx):
         "runs_unsound": cnt["unsound"],
         "runs_ir_native_disagree": cnt["natdiff"],
         "runs_outside_fragment": cnt["unsup"],
+        "runs_outside_fragment_reasons": unsup_why,
         "runs_panicking": cnt["panic_runs"],
         "definite_claims_checked": cnt["definite_claims_checked"],
         "sa4023_diagnostics": sum(len(np.sa4023) for np in nps),
